@@ -38,6 +38,7 @@ func init() {
 	definePrelude("pow2", 1, SInt, sb.String())
 	// assumed contract of gnark-crypto goldilocks.Element.Inverse on canonical inputs
 	definePrelude("gl_inv", 1, SInt, "(declare-fun gl_inv (Int) Int)\n(assert (forall ((a Int)) (! (and (<= 0 (gl_inv a)) (< (gl_inv a) 18446744069414584321) (=> (= (mod a 18446744069414584321) 0) (= (gl_inv a) 0)) (=> (not (= (mod a 18446744069414584321) 0)) (= (mod (* (gl_inv a) a) 18446744069414584321) 1))) :pattern ((gl_inv a)))))")
+	definePrelude("gl_pow", 2, SInt, "(declare-fun gl_pow (Int Int) Int)\n(assert (forall ((b Int) (e Int)) (! (and (<= 0 (gl_pow b e)) (< (gl_pow b e) 18446744069414584321) (=> (not (= (mod b 18446744069414584321) 0)) (not (= (gl_pow b e) 0)))) :pattern ((gl_pow b e)))))")
 	definePrelude("bigOfDecimal", 1, SInt, "(declare-fun bigOfDecimal (String) Int)")
 	definePrelude("isDecimal", 1, SBool, "(declare-fun isDecimal (String) Bool)")
 	definePrelude("bitand", 2, SInt, "(declare-fun bitand (Int Int) Int)")
